@@ -122,19 +122,23 @@ def run(ctx):
             ctx.saw(c1)
             p0 = prog.prov(c0)
             p1 = prog.prov(c1)
-            # closure#0: memory_to_alloc += mem.len()
+            # closure#0: <total> += mem.len()   (captured variables are identified by role, not by name)
             w0 = writes_through_env(c0, p0)
-            ok = set(w0) == {"memory_to_alloc"} and re.match(r"^AddWithOverflow\(<env>\._ref__memory_to_alloc, Result::unwrap_or_default\(essential_vm::memory::Memory::len\(arg2\.2\)\)\)\.0$", w0.get("memory_to_alloc", ""))
+            ok = len(w0) == 1 and all(re.match(r"^AddWithOverflow\(<env>\.(_ref__)?%s, Result::unwrap_or_default\(essential_vm::memory::Memory::len\(arg2\.2\)\)\)\.0$" % re.escape(k), v) for k, v in w0.items())
             ctx.ob("R4", "total=sum-of-child-memory-lengths", bool(ok), c0.loc(0), "first pass writes %s" % w0, c0)
             w1 = writes_through_env(c1, p1)
             calls1 = [(M.callee_of(t), [M.render(p1.of_operand(a)) for a in t["args"]]) for _, t in c1.calls()]
-            ctx.ob("R4", "pc=max(pc,child pc)", w1.get("pc") == "std::cmp::max(<env>._ref__pc, arg2.1)", c1.loc(0), "pc := %s" % w1.get("pc"), c1)
-            ctx.ob("R4", "gas=saturating-sum", w1.get("total_gas") == "u64::saturating_add(<env>._ref__total_gas, arg2.0)", c1.loc(0), "total_gas := %s" % w1.get("total_gas"), c1)
+            pcw = [k for k, v in w1.items() if re.match(r"^std::cmp::max\(<env>\.(_ref__)?%s, arg2\.1\)$" % re.escape(k), v)]
+            gasw = [k for k, v in w1.items() if re.match(r"^u64::saturating_add\(<env>\.(_ref__)?%s, arg2\.0\)$" % re.escape(k), v)]
+            ptrw = [k for k, v in w1.items() if re.match(r"^AddWithOverflow\(<env>\.(_ref__)?%s, Result::unwrap\(essential_vm::memory::Memory::len\(arg2\.2\)\)\)\.0$" % re.escape(k), v)]
+            ctx.ob("R4", "pc=max(pc,child pc)", len(pcw) == 1, c1.loc(0), "writes %s" % w1, c1)
+            ctx.ob("R4", "gas=saturating-sum", len(gasw) == 1, c1.loc(0), "writes %s" % w1, c1)
+            ctx.ob("R4", "pointer+=child-length", len(ptrw) == 1, c1.loc(0), "writes %s" % w1, c1)
             st = [a for c_, a in calls1 if c_ == "essential_vm::memory::Memory::store_range"]
-            ctx.ob("R4", "store-child-memory-at-pointer", st == [["<env>._ref__memory", "<env>._ref__memory_pointer", "arg2.2"]], c1.loc(0), "store_range%s" % st, c1)
-            ctx.ob("R4", "pointer+=child-length", bool(re.match(r"^AddWithOverflow\(<env>\._ref__memory_pointer, Result::unwrap\(essential_vm::memory::Memory::len\(arg2\.2\)\)\)\.0$", w1.get("memory_pointer", ""))), c1.loc(0),
-                   "memory_pointer := %s" % w1.get("memory_pointer"), c1)
-            ctx.ob("R4", "halt|=child-halt", any(c_.endswith("BitOrAssign<&bool>>::bitor_assign") and a == ["<env>._ref__halt", "arg2.3"] for c_, a in calls1), c1.loc(0), "calls %s" % [c_ for c_, _ in calls1][-1:], c1)
+            ok = len(st) == 1 and len(ptrw) == 1 and re.match(r"^<env>\.(_ref__)?\w+$", st[0][0]) is not None and re.match(r"^<env>\.(_ref__)?%s$" % re.escape(ptrw[0]), st[0][1]) is not None and st[0][2] == "arg2.2"
+            ctx.ob("R4", "store-child-memory-at-pointer", bool(ok), c1.loc(0), "store_range%s" % st, c1)
+            ctx.ob("R4", "halt|=child-halt", any(c_.endswith("BitOrAssign<&bool>>::bitor_assign") and re.match(r"^<env>\.(_ref__)?\w+$", a[0]) and a[1] == "arg2.3" for c_, a in calls1), c1.loc(0), "calls %s" % [c_ for c_, _ in calls1][-1:], c1)
+            ctx.ob("R4", "nothing-else-written", set(w1) == set(pcw + gasw + ptrw), c1.loc(0), "captured variables written: %s" % sorted(w1), c1)
         ptr0 = [x for x in cs if x[1] == "essential_vm::memory::Memory::len" and x[2] == ["memory"]]
         ctx.ob("R4", "pointer-starts-at-old-length", len(ptr0) == 1 and (not alloc or j.cfg().dominates(ptr0[0][0], alloc[0][0])), j.loc(ptr0[0][0]) if ptr0 else j.loc(0), "memory.len() read before alloc: %s" % bool(ptr0), j)
     # errors propagate before the join
